@@ -473,6 +473,46 @@ def confirm_feeding(ctx, what='feeding'):
     return False, None, 'one-shot and incremental agree and reordering stays within 8 ulps on the battery'
 
 
+def confirm_wellformed(ctx, what='well-formed results'):
+    """No entry point may return Ok with a NaN bound or with low > high. Used when a state-level / stubbed Kani harness reports
+    such an outcome but its counterexample does not replay natively (the stubbed critical value is not statrs' value): the same
+    outcome is looked for through the public data route on small adversarial samples (widely dispersed, constant, tiny, huge,
+    with NaN / inf), every kind, several levels, f64 and f32."""
+    drv = Driver.get(ctx)
+    samples = [[1.0, 1000.0], [0.02, 35.0, 0.5, 1200.0], [1e-3, 1.0, 1e3], [5.0, 5.0, 5.0], [36.6, 36.6, 36.6], [1e-300, 1e300], [1e150, 1e-150, 1.0],
+               [1.0, 2.0, 3.0, 4.0], [1.0, float('inf')], [1.0, float('nan'), 2.0], [0.1, 0.1, 0.1, 0.1, 0.1, 0.1], [2.0, 1e-8], [3.0, 3.0000000000000004]]
+    cmds = []
+    for d in samples:
+        for ty in ('f64', 'f32'):
+            for kind in (0, 1, 2):
+                for lv in (0.5, 0.9, 0.95, 0.99, 0.3):
+                    tok = ' '.join(bits(x) for x in d)
+                    for ep in ('arith_ci', 'harmonic_ci', 'geometric_ci'):
+                        cmds.append('%s %s %d %s %s' % (ep, ty, kind, bits(lv), tok))
+                    if ty == 'f64':
+                        cmds.append('paired_ci f64 %d %s %s' % (kind, bits(lv), ' '.join(bits(x) for x in (d + d[::-1]))))
+                        cmds.append('unpaired_ci f64 %d %s %d %s' % (kind, bits(lv), len(d), ' '.join(bits(x) for x in (d + [2.0, 2.0, 2.5]))))
+                        cmds.append('unpaired_ci f64 %d %s 3 %s' % (kind, bits(lv), ' '.join(bits(x) for x in ([2.0, 2.0, 2.5] + d))))
+    for n, k in ((0, 0), (1, 0), (4, 2), (10, 5), (100, 10), (100, 90), (36037, 10), (20, 18), (3, 5)):
+        for kind in (0, 1, 2):
+            for lv in (0.5, 0.95, 0.9999, 0.3, 0.001):
+                for ep in ('wilson', 'z_normal', 'prop_ci'):
+                    cmds.append('%s %d %d %d %s' % (ep, n, k, kind, bits(lv)))
+    outs = drv.run(cmds)
+    for c, o in zip(cmds, outs):
+        r = parse_result(o)
+        if r[0] == 'panic':
+            path = save(ctx, what, {'property': ctx.pid, 'what': what, 'command': c, 'native': o, 'deviation': 'panic instead of a documented error'})
+            return True, path, '%s panics: %s' % (c.split()[0], o[:120])
+        if r[0] == 'ok':
+            b = r[2]
+            if any(x != x for x in b) or (len(b) == 2 and b[0] > b[1]):
+                path = save(ctx, what, {'property': ctx.pid, 'what': what, 'command': c, 'native': o, 'bounds': [repr(x) for x in b],
+                                        'deviation': 'Ok with a NaN bound or with low > high'})
+                return True, path, '%s returns Ok%r' % (' '.join(c.split()[:4]), b)
+    return False, None, 'no Ok result with a NaN bound or inverted bounds (and no panic) on the adversarial data battery (%d calls)' % len(cmds)
+
+
 def confirm_critical_value(ctx, what='critical value'):
     ok, path, note = replay_arith(ctx, {}, what)
     if ok:
